@@ -118,6 +118,8 @@ DescTable == [
     null_source      |-> [t |-> {"http_yaml", "grpc_yaml"}, at |-> 1, v |-> "reject"],
     null_postproc    |-> [t |-> {"http_yaml", "grpc_yaml"}, at |-> 1, v |-> "reject"],
     null_preproc     |-> [t |-> {"grpc_yaml"}, at |-> 1, v |-> "reject"],
+    empty_plugin     |-> [t |-> ScenarioTargets, at |-> 1, v |-> "reject"],
+    bool_key         |-> [t |-> {"http_yaml", "grpc_yaml"}, at |-> 1, v |-> "reject"],
     neg_weight       |-> [t |-> ScenarioTargets, at |-> 1, v |-> "reject"],
     var_randint_eq   |-> [t |-> ScenarioTargets, at |-> 1, v |-> "either"],
     var_randint_ovf  |-> [t |-> ScenarioTargets, at |-> 1, v |-> "either"],
@@ -135,6 +137,10 @@ DescTable == [
     map_randint_eq   |-> [t |-> ScenarioTargets, at |-> 3, v |-> "either"],
     map_randint_ovf  |-> [t |-> ScenarioTargets, at |-> 3, v |-> "either"],
     map_randstr_neg  |-> [t |-> ScenarioTargets, at |-> 3, v |-> "either"],
+    map_neg_index    |-> [t |-> ScenarioTargets, at |-> 0, v |-> "deliver"],
+    map_empty_index  |-> [t |-> ScenarioTargets, at |-> 3, v |-> "reject"],
+    map_unclosed     |-> [t |-> ScenarioTargets, at |-> 3, v |-> "reject"],
+    map_huge_index   |-> [t |-> ScenarioTargets, at |-> 3, v |-> "reject"],
     map_bad_index    |-> [t |-> ScenarioTargets, at |-> 3, v |-> "reject"],
     xpath_ok         |-> [t |-> {"http_hcl", "http_yaml"}, at |-> 0, v |-> "deliver"],
     xpath_number     |-> [t |-> {"http_hcl", "http_yaml"}, at |-> 4, v |-> "reject"],
